@@ -1324,10 +1324,16 @@ class ValueObject(Value):
         if self.hasItem(key):
             return self.getItem(key)
         current = self
+        seen = [self]
         while current.hasItem("_proto_"):
             current = current.getItem("_proto_")
-            if not current:
+            if (
+                not current
+                or not current.isObject()
+                or any(current is s for s in seen)
+            ):
                 break
+            seen.append(current)
             if current.hasItem(key):
                 return current.getItem(key)
         return None
